@@ -24,6 +24,24 @@ func (p plainReader) Read(b []byte) (int, error) {
 	return p.r.Read(b[:1])
 }
 
+// stallReader is a plainReader that answers every other call with (0, nil): legal for an io.Reader
+// ("nothing happened"), and what a non-blocking source does.
+type stallReader struct {
+	r    *bytes.Reader
+	tick *int
+}
+
+func (p stallReader) Read(b []byte) (int, error) {
+	if len(b) == 0 {
+		return 0, nil
+	}
+	*p.tick++
+	if *p.tick%2 == 1 {
+		return 0, nil
+	}
+	return p.r.Read(b[:1])
+}
+
 func c05Enc(c *Ctx, w int, v uint64) {
 	var out bytes.Buffer
 	var obs string
@@ -71,6 +89,8 @@ func c05Dec(c *Ctx, w int, input []byte, kind string) {
 	var r io.Reader = br
 	if kind == "rd" {
 		r = plainReader{br}
+	} else if kind == "st" {
+		r = stallReader{br, new(int)}
 	}
 	var obs string
 	p, _ := guard(func() {
@@ -165,7 +185,7 @@ func genC05(c *Ctx) {
 		}
 	}
 	// decoders: exhaustive short inputs
-	kinds := []string{"br", "rd"}
+	kinds := []string{"br", "rd", "st"}
 	for _, w := range []int{32, 64} {
 		c05Dec(c, w, nil, "br")
 		c05Dec(c, w, nil, "rd")
@@ -176,20 +196,20 @@ func genC05(c *Ctx) {
 		}
 		for a := 0; a < 256; a++ {
 			for b := 0; b < 256; b++ {
-				c05Dec(c, w, []byte{byte(a), byte(b)}, kinds[(a+b)%2])
+				c05Dec(c, w, []byte{byte(a), byte(b)}, kinds[(a+b)%3])
 			}
 		}
 		if c.Thorough() {
 			for a := 0; a < 256; a++ {
 				for b := 0; b < 256; b++ {
 					for d := 0; d < 256; d++ {
-						c05Dec(c, w, []byte{byte(a), byte(b), byte(d)}, kinds[(a+b+d)%2])
+						c05Dec(c, w, []byte{byte(a), byte(b), byte(d)}, kinds[(a+b+d)%3])
 					}
 				}
 			}
 		} else {
 			for i := 0; i < 20000; i++ {
-				c05Dec(c, w, []byte{byte(c.R.Intn(256)), byte(c.R.Intn(256)), byte(c.R.Intn(256))}, kinds[i%2])
+				c05Dec(c, w, []byte{byte(c.R.Intn(256)), byte(c.R.Intn(256)), byte(c.R.Intn(256))}, kinds[i%3])
 			}
 		}
 		// structured: k continuation bytes, a terminator, trailing bytes
@@ -205,7 +225,7 @@ func genC05(c *Ctx) {
 				for t := c.R.Intn(4); t > 0; t-- {
 					in = append(in, byte(c.R.Intn(256)))
 				}
-				c05Dec(c, w, in, kinds[rep%2])
+				c05Dec(c, w, in, kinds[rep%3])
 			}
 		}
 		// minimal encodings of boundary and random values with trailing bytes
@@ -218,7 +238,7 @@ func genC05(c *Ctx) {
 			for t := c.R.Intn(3); t > 0; t-- {
 				in = append(in, byte(c.R.Intn(256)))
 			}
-			c05Dec(c, w, in, kinds[i%2])
+			c05Dec(c, w, in, kinds[i%3])
 		}
 	}
 }
